@@ -350,6 +350,8 @@ func hashStr(h uint64, parts ...string) uint64 {
 	return h
 }
 
+var stallDurations = []time.Duration{time.Millisecond, 50 * time.Millisecond, time.Second, 10 * time.Second, 61 * time.Second}
+
 // options lists what may happen next. Index 0 is the benign default: keep
 // running the current task; else the lowest-id runnable task; else the first
 // source option (sources list oldest first); else advance time.
@@ -369,7 +371,11 @@ func (w *World) options() []Option { // w.mu held
 	}
 	w.mu.Lock()
 	if !w.farFired {
-		opts = append(opts, Option{Key: "A", Class: 'A', AnchorN: w.Advances})
+		a := Option{Key: "A", Class: 'A', AnchorN: w.Advances}
+		if len(opts) > 0 {
+			a.NParam = len(stallDurations) // choosing it now is a stall of a drawn length
+		}
+		opts = append(opts, a)
 	}
 	w.optBuf = opts
 	return opts
@@ -558,8 +564,22 @@ func (w *World) Run(done func() bool) End {
 			case <-w.notify:
 			default:
 			}
+			// a stall (something else was enabled) lasts at most a drawn duration:
+			// time jumps to the next timer of the system or to the end of the stall,
+			// whichever comes first
+			var stallC <-chan time.Time
+			var st *time.Timer
+			if len(opts) > 1 {
+				st = time.NewTimer(stallDurations[param%len(stallDurations)])
+				stallC = st.C
+				w.Hash = hashStr(w.Hash, strconv.Itoa(param))
+			}
 			select {
 			case <-w.notify:
+				if st != nil {
+					st.Stop()
+				}
+			case <-stallC:
 			case <-w.far.C:
 				w.farFired = true
 				if len(opts) > 1 {
